@@ -440,6 +440,81 @@ def r5_only_signed_requests_leave(ctx):
         ctx.check(bypass is None, 'C16.R5', f'{func_label(h)}|every-answer-is-status-checked', loc(h, h.node), f'{h.name}: every response passes raise_for_status', f'{h.name}: some responses (e.g. redirects) skip raise_for_status: a 3xx answer is treated as success / followed')
 
 
+def r2d_declared_length_is_stream_length(ctx):
+    """The length a command declares to upload_stream becomes the Content-Length (and the size of the hashed body) of the
+    S3 PUT.  It must be the length of the very object the stream reads from: len(X) for BytesIO(X), the fstat size of the
+    file that was opened.  A length computed from other bookkeeping (plaintext offsets of a chunk that is uploaded
+    encrypted) declares fewer / more bytes than are sent."""
+    corpus = ctx.corpus
+    cls = corpus.cls('repository', 'Repository')
+    n = 0
+    for m in list(cls.methods.values()):
+        for f in [m] + list(m.all_nested()):
+            for c in calls_in(f.node):
+                idx = next((i for i, a in enumerate(c.args) if isinstance(a, ast.Attribute) and a.attr == 'upload_stream'), None)
+                direct = isinstance(c.func, ast.Attribute) and c.func.attr == 'upload_stream' and 'backend' in (dotted(c.func) or '')
+                if idx is None and not direct:
+                    continue
+                args = c.args[idx + 1 :] if idx is not None else c.args
+                if len(args) < 3:
+                    continue
+                n += 1
+                ctx.analysed(f)
+                stream_e, length_e = args[1], args[2]
+
+                def defs(name):
+                    return [a.value for a in walk_local(f.node) if isinstance(a, ast.Assign) and any(isinstance(t, ast.Name) and t.id == name for t in a.targets)]
+
+                bases, seen = [], set()
+
+                def base(e, depth=0):
+                    if depth > 8:
+                        return
+                    if isinstance(e, ast.Name):
+                        if e.id in seen:
+                            return
+                        seen.add(e.id)
+                        ds = defs(e.id)
+                        for d in ds:
+                            if isinstance(d, ast.Call) and (dotted(d.func) or '').endswith('BytesIO'):
+                                bases.append(('bytes', e.id, d))
+                            elif isinstance(d, ast.Call) and isinstance(d.func, ast.Attribute) and d.func.attr == 'open' or (isinstance(d, ast.Call) and dotted(d.func) == 'open'):
+                                bases.append(('file', e.id, d))
+                            else:
+                                base(d, depth + 1)
+                    elif isinstance(e, ast.Call):
+                        for a in e.args:
+                            if isinstance(a, (ast.Name, ast.Call, ast.IfExp)):
+                                base(a, depth + 1)
+                    elif isinstance(e, ast.IfExp):
+                        base(e.body, depth + 1)
+                        base(e.orelse, depth + 1)
+
+                base(stream_e)
+                lens = [length_e] if not isinstance(length_e, ast.Name) else defs(length_e.id)
+                ok = bool(bases) and bool(lens)
+                why = 'the stream / length cannot be traced to their definitions'
+                for kind, nm, d in bases:
+                    for le in lens:
+                        if kind == 'bytes':
+                            good = isinstance(le, ast.Call) and dotted(le.func) == 'len' and len(le.args) == 1 and d.args and ast.dump(le.args[0]) == ast.dump(d.args[0])
+                            if not good:
+                                ok, why = False, f'the stream reads `{src(d.args[0], 40) if d.args else "?"}` but the declared length is `{src(le, 50)}`'
+                        else:
+                            good = any(isinstance(x, ast.Attribute) and x.attr == 'st_size' for x in ast.walk(le)) and any(isinstance(x, ast.Name) and x.id == nm for x in ast.walk(le))
+                            if not good:
+                                ok, why = False, f'the stream is the file `{nm}` but the declared length is `{src(le, 50)}`, not its fstat size'
+                ctx.check(
+                    ok,
+                    'C16.R2',
+                    f'{func_label(f)}|declared-length-is-stream-length',
+                    loc(f, c),
+                    f'{f.name}: the length declared to upload_stream is the length of the object the stream reads',
+                    f'{f.name}: {why}: the S3 PUT declares a Content-Length that differs from the body sent (an encrypted chunk is longer than its plaintext range)',
+                )
+    ctx.floor('C16.R2', 'upload_stream call sites in Repository', n, 2)
+
+
 def _canon(t):
     """order-independent serialisation of a term (alternatives sorted by their own serialisation)"""
     if isinstance(t, frozenset):
@@ -493,6 +568,7 @@ def run(ctx):
         pr = s3.methods['_prepare_request']
         ctx.ok('C16.R3', loc(pr, pr.node), f'the helpers of the signing pipeline were restructured ({e}); with all helpers expanded, (URL, headers) handed to build_request are term-identical to the design tree')
     r2_payload_sites(ctx)
+    r2d_declared_length_is_stream_length(ctx)
     r4_encoders(ctx)
     r5_only_signed_requests_leave(ctx)
     # the streamed body is read in pieces of the size the command chose: a size of 0 makes the body iterator end at once -
@@ -505,3 +581,6 @@ def run(ctx):
     from .c12 import r2_rewind
 
     r2_rewind(ctx, rule='C16.R2', only={'S3Compatible'}, floor=2)
+    from .c12 import r2d_no_read_in_flight
+
+    r2d_no_read_in_flight(ctx, 'C16.R2')
